@@ -58,7 +58,7 @@ def check_exclusion(ctx, e, pd):
     ms = [arr(m) for m in meas]
     d, p, rhos = e["d"], e["p"], e["rhos"]
     sig = (e["n"], d, e["form"], field, e["pk"], pd)
-    nt = e["cplx"] or e["form"] == "dm" or e["pk"] != 0
+    nt = e["cplx"] or e["form"].startswith("dm") or e["pk"] != 0
     neg, comp, hdev = certs.povm_defect(ms, d)
     ctx.check("O1:povm-valid", max(neg, comp, hdev) <= TOLP, dev=max(neg, comp, hdev), tol=TOLP, sig=sig, nt=nt, mech=f"state_exclusion:invalid-povm[{pd}]",
               detail={"neg": neg, "completeness": comp, "herm": hdev})
@@ -88,7 +88,7 @@ def _run_ens(ctx, spec, rng):
     n, d, p, rhos = e["n"], e["d"], e["p"], e["rhos"]
     field = "complex" if e["cplx"] else "real"
     sig = (n, d, e["form"], field, e["pk"])
-    nt = e["cplx"] or e["form"] == "dm" or e["pk"] != 0
+    nt = e["cplx"] or e["form"].startswith("dm") or e["pk"] != 0
     vd = check_exclusion(ctx, e, "dual")
     vp = check_exclusion(ctx, e, "primal")
     if vd is not None and vp is not None:
@@ -101,7 +101,7 @@ def _run_ens(ctx, spec, rng):
         want = 0.5 * (1 - ref.trace_norm(p[0] * rhos[0] - p[1] * rhos[1]))
         ctx.check("O2:two-state-closed-form", None, dev=abs(v - want), tol=TOLV, sig=sig, nt=nt, mech="state_exclusion:two-state-mismatch", detail={"value": v, "want": want})
     u = gen.haar(rng, d, real=not e["cplx"])
-    rot = [u @ x @ u.conj().T for x in e["inp"]] if e["form"] == "dm" else [u @ x for x in e["inp"]]
+    rot = [u @ x @ u.conj().T for x in e["inp"]] if e["form"].startswith("dm") else [u @ x for x in e["inp"]]
     res = _solve(ctx, state_exclusion, rot, list(p))
     if res is not None:
         ctx.check("O2:unitary-invariant", None, dev=abs(float(np.real(res[0])) - v), tol=TOLV, sig=sig, nt=nt, mech="state_exclusion:not-unitary-invariant", detail={"value": v, "rotated": res[0]})
